@@ -333,8 +333,7 @@ Fixpoint veq (a b : value) {struct a} : bool :=
   | VMap m, VMap m' =>
       Nat.eqb (length m) (length m') &&
       all_b (fun kv : key * value =>
-               let (k, v) := kv in
-               match map_get m' k with Some v' => veq v v' | None => false end) m
+               match map_get m' (fst kv) with Some v' => veq (snd kv) v' | None => false end) m
   | VFloat x, VFloat y => f64_eq x y
   | VFloat x, _ => is_eq (cmp_f64_to_number x b)
   | _, VFloat y => is_eq (cmp_f64_to_number y a)
@@ -407,7 +406,7 @@ Fixpoint vcmp (a b : value) {struct a} : comparison :=
   | VArr l, VArr l' => list_cmp vcmp l l'
   | VMap m, VMap m' =>
       list_cmp (entry_cmp (fun (f : value -> comparison) (y : value) => f y))
-               (ksort (map (fun kv : key * value => let (k, v) := kv in (k, vcmp v)) m))
+               (ksort (map (fun kv : key * value => (fst kv, vcmp (snd kv))) m))
                (ksort m')
   | _, _ =>
       match vpcmp a b with
@@ -424,7 +423,7 @@ Fixpoint wfb (v : value) : bool :=
   | VArr l => all_b wfb l
   | VMap m =>
       all_b key_wf (map fst m) && keys_distinct (map fst m) &&
-      all_b (fun kv : key * value => let (_, x) := kv in wfb x) m
+      all_b (fun kv : key * value => wfb (snd kv)) m
   | _ => true
   end.
 Definition wf (v : value) : Prop := wfb v = true.
